@@ -113,6 +113,8 @@ pub struct Sem<'a, 'b> {
     pub keepalive_is_bound: bool,
     /// logging leaves whose order the statement leaves open (directive values / arguments)
     pub unordered_leaves: Vec<String>,
+    /// leaves that may legitimately be evaluated several times in a row (computed v-model argument)
+    pub multi_leaves: Vec<String>,
     in_directive: bool,
     /// (mergeable name, log counter right after its latest occurrence) for the current element
     merge_marks: Vec<(String, usize)>,
@@ -136,6 +138,7 @@ impl<'a, 'b> Sem<'a, 'b> {
             has_ws_only: false,
             keepalive_is_bound: false,
             unordered_leaves: vec![],
+            multi_leaves: vec![],
             in_directive: false,
             merge_marks: vec![],
         };
@@ -302,6 +305,10 @@ impl<'a, 'b> Sem<'a, 'b> {
             self.env.globals.push((
                 "t".into(),
                 serde_json::json!({"k":"tracer","id":"t","rets": rets, "default": {"k":"undef"}}),
+            ));
+            self.env.globals.push((
+                "ta".into(),
+                serde_json::json!({"k":"tracer","id":"ta","rets": {}, "default": {"k":"str","v":"dynArg"}}),
             ));
             self.env.globals.push((
                 "to".into(),
@@ -980,9 +987,16 @@ impl<'a, 'b> Sem<'a, 'b> {
             }
             3 => {
                 arg_name = "dynArg".into();
-                // (in logging mode the computed argument stays a bare identifier: C11 exempts it -
-                // it may be evaluated once per generated prop key)
-                arr_arg = Some(VmArg::Dynamic(Ex::src("dyn1", Cat::IdentBound)));
+                // in logging mode the computed argument is a leaf `ta(k)` (returns a string): C11
+                // exempts it - it may be evaluated once per generated prop key (at most 3 times)
+                arr_arg = Some(VmArg::Dynamic(if self.cfg.logging {
+                    self.n_exprs += 1;
+                    let k = self.next_log();
+                    self.multi_leaves.push(format!("ta({k})"));
+                    Ex::src(format!("ta({k})"), Cat::Call)
+                } else {
+                    Ex::src("dyn1", Cat::IdentBound)
+                }));
                 self.label("vmodel-dynamic-arg");
             }
             _ => arg_name = "modelValue".into(),
